@@ -18,8 +18,9 @@ CHECKS = {
              'string up to the bound; the real validators are bound to the model on the same complete set of strings '
              '(predicted error lists) and on random longer strings whose recorded outputs TLC judges with the '
              'declarative syntax alone. Right level: the validator is a self-contained function with rich case analysis.',
-        note='bounded: all strings <= 4 (quick) / <= 5 (thorough, model only) over 21 symbol classes; longer strings '
-             'sampled; invalid UTF-8/NUL outside the alphabet; message classes recognised by anchor phrases'),
+        note='bounded: all strings <= 4 (quick) / <= 5 (thorough, model only) over 21 symbol classes, <= 6 over the 7-symbol class '
+             'alphabet and over {a $ { } SP U+3000 +}; longer strings sampled; the linter part samples 3 000 / 30 000 patterns under '
+             'the six filter keys plus 300 cross-kind cases; message classes recognised by anchor phrases'),
     'C18': dict(
         category='model_checking', design_ref='5 (C18), 3.3 Needs',
         technique='TLA+ spec Needs.tla (DFS/collectCycle/printing walk vs. declarative Cyclic/IsCyclePath) checked by '
@@ -29,7 +30,8 @@ CHECKS = {
              'order; the real rule is run on the same graphs and on random larger ones and each recorded output is '
              'judged by TLC with the declarative layer only (dangling references, cyclic iff a cycle diag, printed '
              'path is a simple cycle of the graph, reported at its first job).',
-        note='exhaustive: 3 jobs (ordered lists, dangling, duplicates), 4 jobs (all edge sets); 5..12 jobs random; '
+        note='exhaustive: 1-3 jobs (ordered lists, two distinct dangling ids, duplicates), 4 jobs (all edge sets); 5..12 jobs random; '
+             'eight graphs of 300-700 jobs judged in the driver by the same declarative property (TLC reachability is cubic); '
              'Go map order varied by repetition only; a hang is detected by a 20 s watchdog'),
     'C19': dict(
         category='model_checking', design_ref='5 (C19), 3.3 Matrix',
@@ -39,7 +41,8 @@ CHECKS = {
         text='TLC shows the procedures exact, StructEq an equivalence and the verdicts order-insensitive on the bounded '
              'universe; the real parser + RuleMatrix are bound to the model on the complete set of generated matrices '
              '(two permutation variants each), comparing the exact set of diagnostics by value identity.',
-        note='universe: 17 raw values of depth <= 2, one row of <= 3 values, one include and one exclude combination '
+        note='universe: 20 raw values of depth <= 2 (incl. scalars equal as numbers but not as text), one or two rows of <= 3 values, '
+             'include lists with the expression element at any position, one exclude combination '
              '(plus expression rows/sections/elements); YAML rendering in flow style; positions map diagnostics to values'),
     'C20': dict(
         category='model_checking', design_ref='5 (C20), 3.4 ProcPool, A.8, Appendix B',
@@ -51,18 +54,23 @@ CHECKS = {
              'NoLoss, fatal iff a tool failed, termination) for all small task layouts/outcome patterns, and trace '
              'validation of hundreds of real multi-file runs under Cap 1, 2 and NumCPU with fault injection, each '
              'run also judged by measurements taken by the real child processes (alive at return, max overlap, stdin).',
-        note='real goroutine interleavings are sampled with seeded delays, not enumerated; stand-in tools replace '
+        note='real goroutine interleavings are sampled with seeded delays and, for 60 / 600 TLC simulation behaviours, forced through '
+             'the hook gate; capped groups run with GOMAXPROCS above Cap; one 6.5 s tool; stand-in tools replace '
              'shellcheck/pyflakes; Cap controlled through CPU affinity; scripts stay below the pipe buffer size'),
     'C02': dict(
         category='model_checking', design_ref='5 (C02), 3.4 Emission, A.7',
         technique='TLA+ spec Emission.tla (every iteration order of every map-sourced emission site and of the jobs; '
                   'stable sort) checked by TLC; witness inputs for every catalogued site linted repeatedly by the real '
                   'code (map order re-randomised, GOMAXPROCS 1..16, multi-file); all outcomes recorded and validated by '
-                  'TLC (EmissionTrace.tla: equal to the first outcome of the input, sorted, ties in rule order)',
+                  'TLC (EmissionTrace.tla: equal to the first outcome of the input, sorted, ties in rule order); the same '
+                  'multi-file inputs forced through every serial order of the file goroutines (hook gate of C10); one Linter '
+                  'reused for several runs; rendered -format output; process working directory cycled; a wall-clock probe '
+                  'around a cron boundary',
         text='The model characterises exactly which emission sites can make the output order-dependent; for each such '
              'site of the code a witness input is run many times and any two differing real outputs are a violation '
              '(sound by construction, detection probabilistic: >= 64 runs per witness in quick, 400 in thorough).',
-        note='Go map order and goroutine schedules cannot be forced; sites outside the catalogue (DESIGN A.7) are not '
+        note='Go map order cannot be forced (repetition); goroutine schedules are forced only as serial orders of the file '
+             'goroutines; the wall clock is probed at 2-3 instants around one boundary; sites outside the catalogue (DESIGN A.7) are not '
              'exercised; one known finding (multi-file attribution of a shared broken local action) is listed in known_findings.json'),
     'C10': dict(
         category='model_checking', design_ref='5 (C10), 3.4 Linter, A.9',
